@@ -50,14 +50,14 @@ PROPS["C16"] = {
 }
 
 PROPS["C05"] = {
-        "lean": ["NB.Props.C05"],
+        "lean": ["NB.Props.C05", "NB.Props.C05D"],
         "gens": ["c05"],
         "profiles": ["release", "debug"],
         "trusted": ["u64/u128 wrapping arithmetic and bit operations = Nat arithmetic mod 2^64 and Nat.land/lor/shiftRight on digits < 2^64 (NB.wadd, wsub, wmul, wnot, hdBorrow)",
-                    "BigUint operators used inside modpow/modinv (* % div_rem - cmp <<) taken as the mathematical operations (justified by C01-C03, C07)"],
+                    "BigUint operators used inside modpow/modinv (* % div_rem - + cmp <<): NOT trusted any more - NB.Model.ModPowD calls the digit-level operator models of C01-C03/C07 and NB.Props.C05D proves it equal to the value-level model; what remains trusted is the choice of operator form (e.g. `&a - b` = subRefVal, `a + b` = addRef: Vec capacity, which picks the accumulator of val+val, is not modelled)"],
         "assumptions": COMMON_ASSUME,
-        "level_text": "Theorems (all sorry-free, none _partial): modpow_spec — for ALL canonical b, e, m with m != 0 the model of BigUint::modpow returns the canonical digits of b^e mod m, on the odd path (monty_modpow_spec: padding, rr, 16-entry table, 4-bit windows from the top, skipped first squarings, conversion out, last reduction; built on montgomery_spec: n-digit operands not necessarily < m, z < B^n and z*B^n = x*y (mod m), with the digit-level lemmas add_mul_vvw_spec, sub_vv_spec (Hacker's-Delight borrow proved arithmetically), inv_mod_alt_spec k*b = -1 (mod 2^64)) and on the even path (plain_modpow_spec: zero-digit skipping, trailing-zero stripping, early exit, last digit); modinv_spec — Some(x) iff gcd(a,m)=1, then x<m and a*x = 1 (mod m), zero modulus panics; bigint_modpow_spec — negative exponent / zero modulus panic, otherwise BigInt.ofInt (Int.fmod (b^e) m); bigint_modinv_spec — Some(y) iff gcd=1, y canonical, in [0,m) resp. (m,0], m | a*y-1. No internal assertion, overflow site or checked subtraction of the model is reachable. The model is tied to the source by the extracted window width (obligation gen_params_valid_monty: window = 4 = the four literal squarings) and by a 3-way differential run (real crate release+debug vs compiled model vs independent Nat/Int oracle) on structured moduli/bases/exponents/signs plus the internal hooks montgomery (digit-exact and checked mod m / < B^n, exit branch compared through the MONTY_SUB probe) and inv_mod_alt.",
-        "level_note": 'Trusted: Lean kernel + {propext, Classical.choice, Quot.sound} (no bv_decide needed); u64/u128 wrapping arithmetic and & | ! >> modelled as Nat arithmetic mod 2^64 and Nat.land/lor/shiftRight; BigUint operators inside modpow/modinv taken as the mathematical operations (C01-C03, C07); Vec/ownership not modelled; correspondence strength bounded by the generators (quick: ~9.8k requests, probes MONTY_SUB/NOSUB/FINAL_SUB all hit).',
+        "level_text": "Theorems (all sorry-free, none _partial): modpow_spec — for ALL canonical b, e, m with m != 0 the model of BigUint::modpow returns the canonical digits of b^e mod m, on the odd path (monty_modpow_spec: padding, rr, 16-entry table, 4-bit windows from the top, skipped first squarings, conversion out, last reduction; built on montgomery_spec: n-digit operands not necessarily < m, z < B^n and z*B^n = x*y (mod m), with the digit-level lemmas add_mul_vvw_spec, sub_vv_spec (Hacker's-Delight borrow proved arithmetically), inv_mod_alt_spec k*b = -1 (mod 2^64)) and on the even path (plain_modpow_spec: zero-digit skipping, trailing-zero stripping, early exit, last digit); modinv_spec — Some(x) iff gcd(a,m)=1, then x<m and a*x = 1 (mod m), zero modulus panics; bigint_modpow_spec — negative exponent / zero modulus panic, otherwise BigInt.ofInt (Int.fmod (b^e) m); bigint_modinv_spec — Some(y) iff gcd=1, y canonical, in [0,m) resp. (m,0], m | a*y-1. No internal assertion, overflow site or checked subtraction of the model is reachable. The model is tied to the source by the extracted window width (obligation gen_params_valid_monty: window = 4 = the four literal squarings) Layer link (NB.Props.C05D, all sorry-free, none _partial): the driver's model column for u.modpow, i.modpow, u.modinv, i.modinv, u.plain_modpow, u.monty_modpow is the DIGIT-LEVEL model NB.Model.ModPowD (plain_modpow, modpow dispatch, monty_modpow's x %= m / rr = (1 << 128n) % m / final normalize,>=,-=,>=,%=,normalize, BigUint::modinv with its Euclid loop, the BigInt sign placement &modulus.data - result) built from the digit-vector operator models mulRef, mulAssign, remRef, divRemRef, subAssign, subRefVal, addRef, cmpSlice, biguintShl, normalize with every operator panic propagated; refinement theorems plain_modpowD_refines, monty_modpowD_refines, modpowD_refines, modinvD_refines, bigint_modpowD_refines, bigint_modinvD_refines (digit level = value level incl. panics, canonical inputs, P.ValidModPowD = window 4 and C02's thresholds, obligation gen_params_valid_modpowD; odd path: m.length < 2^57 so that the u64 shift amount 2*n*64 does not overflow) transfer the specs: modpowD_spec, plain_modpowD_spec, monty_modpowD_spec, modinvD_spec, bigint_modpowD_spec, bigint_modinvD_spec, *_zero_mod - so no operator panic, no exhausted modinv loop fuel and no shift overflow is reachable. The model is further tied to the source by a 3-way differential run (real crate release+debug vs compiled model vs independent Nat/Int oracle) on structured moduli/bases/exponents/signs plus the internal hooks montgomery (digit-exact and checked mod m / < B^n, exit branch compared through the MONTY_SUB probe) and inv_mod_alt.",
+        "level_note": 'Trusted: Lean kernel + {propext, Classical.choice, Quot.sound} (no bv_decide needed); u64/u128 wrapping arithmetic and & | ! >> modelled as Nat arithmetic mod 2^64 and Nat.land/lor/shiftRight; BigUint operators inside modpow/modinv are the digit-level models of C01-C03/C07 (NB.Model.ModPowD, refinement proved in NB.Props.C05D; trusted there: the mapping of each Rust operator form to its model function, val+val accumulator choice by Vec capacity not modelled); Vec/ownership not modelled; correspondence strength bounded by the generators (quick: ~9.8k requests, probes MONTY_SUB/NOSUB/FINAL_SUB all hit).',
     }
 
 PROPS["C09"] = {
